@@ -36,6 +36,11 @@ import rsx
 from rsx import Lost
 
 
+# (repo file, function path) -> [const names]; filled by the driver after a first Verus run
+# reported "cannot find value `NAME`" inside that function
+AUTO_CONSTS = {}
+
+
 class Block:
     def __init__(self, kind, arg, line):
         self.kind, self.arg, self.payload, self.line = kind, arg, [], line
@@ -121,10 +126,17 @@ def parse_vspec(path):
                 cur_block = Block(key, _unquote(rest), ln)
                 cur_item.blocks.append(cur_block)
             elif key == "rewrite":
-                m = re.match(r'(\S+)\s+(\d+)\s+"(.*)"\s+=>\s+"(.*)"\s*$', rest)
+                m = re.match(r'(\S+)\s+(\d+\??)\s+"(.*)"\s+=>\s+"(.*)"\s*$', rest)
                 if not m:
                     raise SystemExit("%s:%d: bad @@rewrite" % (path, ln))
-                cur_item.rewrites.append((m.group(1), int(m.group(2)), m.group(3).replace('\\"', '"'), m.group(4).replace('\\"', '"'), ln))
+                want = m.group(2)
+                if want.endswith("?"):
+                    # "N?": the rewrite applies N times or not at all.  Only for R5 (error
+                    # *text* -> opaque value): when the text is gone there is nothing to make opaque.
+                    if m.group(1) != "R5":
+                        raise SystemExit("%s:%d: optional count only allowed for R5" % (path, ln))
+                    want = -int(want[:-1])
+                cur_item.rewrites.append((m.group(1), int(want), m.group(3).replace('\\"', '"'), m.group(4).replace('\\"', '"'), ln))
             elif key == "external_body":
                 cur_item.external_body = True
             elif key == "pub_fields":
@@ -200,6 +212,20 @@ def emit_item(spec, repo, out, stats, vspec_path, cache):
     else:
         item = rsx.find_item(src, mask, spec.kind, spec.name, lo, hi, depth)
     fn = spec.path
+    # ---- R23 (automatic, driver-requested): a module-level `const NAME: T = v;` of the same
+    # file that the function started to reference is copied verbatim to the start of its body
+    # (Rust allows items in blocks), so that a change introducing a constant stays decidable ----
+    blocks = list(spec.blocks)
+    for cname in AUTO_CONSTS.get((spec.file, fn), []):
+        if spec.kind != "fn" or item.body_open is None:
+            raise Lost("%s: cannot hoist const %s" % (fn, cname))
+        c = rsx.find_item(src, mask, "const", cname, 0, len(src), 0)
+        b = Block("body_start", None, rsx.line_of(src, c.head))
+        l0 = rsx.line_of(src, c.head)
+        b.payload = [(l, l0 + i) for i, l in enumerate(src[c.head:c.end].split("\n"))]
+        blocks.append(b)
+        stats["rewrites"].setdefault("R23", 0)
+        stats["rewrites"]["R23"] += 1
     # ---- collect insertion points (absolute offsets in src) ----
     inserts = {}  # offset -> list of (order, payload, newline_mode)
 
@@ -207,7 +233,7 @@ def emit_item(spec, repo, out, stats, vspec_path, cache):
         inserts.setdefault(off, []).append((block, mode))
 
     loops = None
-    for b in spec.blocks:
+    for b in blocks:
         if b.kind == "attr":
             ins(item.start, b, "line_before")
         elif b.kind == "sig":
@@ -400,7 +426,7 @@ def emit_item(spec, repo, out, stats, vspec_path, cache):
                     if old.count("\n") != new.count("\n"):
                         raise SystemExit("%s:%d: rewrite must preserve line count" % (vspec_path, ln))
                     pieces[i] = ("src", p[1].replace(old, new), p[2])
-        if total != want:
+        if total != want and not (want < 0 and total in (0, -want)):
             raise Lost("%s: rewrite %s %r applied %d times, expected %d" % (fn, rid, old, total, want))
         stats["rewrites"].setdefault(rid, 0)
         stats["rewrites"][rid] += total
@@ -497,8 +523,11 @@ def generate(unit_dir, repo, out_path):
             stats["raw"].append(p)
         else:
             emit_item(part, repo, out, stats, vspec, cache)
-    with open(out_path, "w", encoding="utf-8") as f:
+    # atomic: concurrent checks that share a unit generate the same text
+    tmp = "%s.tmp.%d" % (out_path, os.getpid())
+    with open(tmp, "w", encoding="utf-8") as f:
         f.write("\n".join(out.lines) + "\n")
+    os.replace(tmp, out_path)
     return unit, out, stats
 
 
